@@ -90,6 +90,8 @@ func main() {
 	if only == nil {
 		blockingQueues(env, rep)
 		partialWakeups(env, rep)
+		orphanConsumers(env, rep)
+		panicSafety(env, rep)
 		containerArgProbes(env, rep)
 		readLockWriterStress(env, rep, facts)
 		sequential(env, rep, rng.Fork(), fams)
